@@ -12,6 +12,7 @@
 -/
 import RotoV.Lemmas.TcValueCycle
 import RotoV.Lemmas.TcValueCycleTarjan
+import RotoV.Lemmas.TcValueCycleProg
 import RotoV.Model.TcValueCyclePinned
 import RotoV.Generated.C07Cycle
 
@@ -83,6 +84,25 @@ theorem documented_rule_enforced (g : Tarjan.Graph) (h : TcValueCycle.ruleReject
 
 example : TcValueCycle.ruleRejects
     ⟨[(0, [1, 2]), (1, [0]), (2, [1])], fun n => if n = 2 then .const else .func⟩ = true := by decide
+
+/-- **T6 `program_rule_enforced`**: the PROGRAM-level rule of the declarative
+    checker (`Typing.constIsRecursive p c`: the initialiser of constant `c`
+    mentions an item that leads back to `c` through initialisers and function
+    bodies) implies that `find_compilation_order`, run on the program's reference
+    graph, reports a recursive constant — for EVERY numbering `rank` of the items
+    (the rank order of the names is the symbol table's business). So what `D`
+    rejects with `recursive-constant`, the code as written rejects, provided the
+    checker collects the references the script contains (tie of phase `cyc`). -/
+theorem program_rule_enforced (p : Typing.Prog) (rank : Typing.Item → Nat)
+    (hinj : ∀ a b, rank a = rank b → a = b) (c : Nat) (h : Typing.constIsRecursive p c = true) :
+    ∃ c', Tarjan.findCompilationOrder (TcValueCycle.progGraph p rank) = .ok (.recursive c') := by
+  obtain ⟨d, hk, e, r⟩ := TcValueCycle.prog_cycle p rank hinj c h
+  obtain ⟨c', _, hf⟩ := recursive_constant_reported _ _ d hk e r
+  exact ⟨c', hf⟩
+
+/-- `const C0: i32 = f1();  fn f1() -> i32 { C0 }` -/
+example : Typing.constIsRecursive
+    ⟨[.const 0 (.int .i32) (.call 1 []), .fn 1 [] (.int .i32) (.mk [] (some (.const 0)))]⟩ 0 = true := by decide
 
 /-- the seeded class in miniature, on the model: two mutually recursive
     functions `0 ⇄ 1`, the constant `2` read by `0` and defined through `1` —
